@@ -333,14 +333,39 @@ func c02VersionDispatch(c *Ctx) {
 		{"pre07Hash", [][]string{{"^!", "GreaterThanEqual(", "Ver0_13_2"}, {"Number < ", "First07Block"}}},
 		{"post07Hash", [][]string{{"^!", "GreaterThanEqual(", "Ver0_13_2"}, {"^!", "Number < ", "First07Block"}}},
 	} {
-		s := findSite(f, d.callee)
-		if s == nil {
+		// the dispatch may be spread over same-package helpers (`pre0132Hash` choosing between the two Pedersen formulas)
+		dss := p.deepSites(f, nameMatcher(d.callee), 2)
+		if len(dss) == 0 {
 			c.viol("version-dispatch", "BlockHash → "+d.callee, p.Pos(fnPos(f)), "formula is no longer dispatched from BlockHash")
 			continue
 		}
-		dn := p.mustHoldAt(s.Instr)
+		s := &dss[0].Site
+		dn := p.mustHoldDeep(dss[0])
 		for _, need := range d.need {
-			ok, miss := everyDisjunctHas(dn, need)
+			// a threshold may be spelt with either predicate: v.GreaterThanEqual(T) ≡ !v.LessThan(T); `Number < X` ≡ !(Number >= X)
+			alts := [][]string{need}
+			if len(need) >= 2 {
+				neg := need[0] == "^!"
+				rest := need
+				if neg {
+					rest = need[1:]
+				}
+				if rest[0] == "GreaterThanEqual(" {
+					if neg {
+						alts = append(alts, append([]string{"LessThan("}, rest[1:]...))
+					} else {
+						alts = append(alts, append([]string{"^!", "LessThan("}, rest[1:]...))
+					}
+				}
+				if rest[0] == "Number < " {
+					if neg {
+						alts = append(alts, append([]string{"Number >= "}, rest[1:]...), []string{"Number >= ", "irst07"}, []string{"^!", "Number < ", "irst07"})
+					} else {
+						alts = append(alts, append([]string{"^!", "Number >= "}, rest[1:]...), []string{"^!", "Number >= ", "irst07"}, []string{"Number < ", "irst07"})
+					}
+				}
+			}
+			ok, miss := everyDisjunctHas(dn, alts...)
 			c.check(ok, "version-dispatch", "BlockHash → "+d.callee+" requires "+strings.Join(need, "…"), p.Pos(s.Pos()), "selected under the protocol's version threshold", "block-hash formula "+d.callee+" is selected without "+strings.Join(need, "…")+": "+miss)
 		}
 	}
